@@ -206,3 +206,15 @@ func VH_C01_Hist(p []int) {
 	vhAssertEnds(s, cfg.ord, model, "ends")
 	verifReach("end")
 }
+
+// The observers of the ordered list work on a read-only stack exactly as on
+// any other.  p: n, slack
+func VH_C01_ReadOnlyViews(p []int) {
+	pre := vhArbitraryStack(p[0], p[1], true, vhOptMask, 2, 3)
+	pre.cfg.opt |= ronly
+	vhAssertContent(pre.s, pre.model, "content")
+	vhAssertIndexViews(pre.s, pre.model, "views")
+	vhAssertEnds(pre.s, pre.cfg.ord, pre.model, "ends")
+	verifAssert(pre.s.IsReadOnly(), "IsReadOnly")
+	verifReach("end")
+}
